@@ -22,6 +22,19 @@ static const size_t DISTINCT_CAP = 1000000;  // per shard: bounds memory; the co
 
 static Reporter R;
 static std::string PROP;
+// --deadline <seconds>: stop cleanly (exhaustive:false, what was completed is reported, exit 0)
+static double g_t0 = 0, g_deadline = 1e9;
+static uint64_t g_skipped_after_deadline = 0;
+static bool timed_out() {
+  static bool hit = false;
+  if (!hit && now_s() - g_t0 > g_deadline) {
+    hit = true;
+    R.exhaustive = false;
+    R.note = "deadline of " + std::to_string(int(g_deadline)) + " s reached: the remaining cases of this shard were not run";
+  }
+  if (hit) g_skipped_after_deadline++;
+  return hit;
+}
 static const char* CN[8] = {"protocol", "username", "password", "hostname", "port", "pathname", "search", "hash"};
 
 // ------------------------------------------------------------------------------------------------ specs
@@ -275,43 +288,113 @@ static std::string delim_tag(std::string_view v, char delim, const char* name) {
   if (!t.empty() && t[0] == delim) return name;
   return feature(v);
 }
+// ---- revision-sensitive sub-spaces: kept OUT of the enumerated alphabets (never judged, never alarmed on) --------------
+// (U1) canonicalize a protocol parses value + "://dummy.test".  One revision of the URLPattern Standard passes a dummyURL
+//      as `url` (then the basic URL parser does not trim leading C0-control-or-space), another passes none (then it
+//      does).  Tab/LF/CR removal happens in both.  The two readings can only differ when the value, after tab/newline
+//      removal, starts with a C0 control or space.
+static bool uncertain_protocol(std::string_view v) {
+  std::string t = strip_tab_nl(v);
+  return !t.empty() && static_cast<unsigned char>(t.front()) <= 0x20;
+}
+// (U2) port state under a state override with an EMPTY buffer (value empty after tab/newline removal, or its first code
+//      point is not an ASCII digit): the URL Standard used to say "If state override is given, then return" (success,
+//      port stays null -> "") and now says "return failure".  Values that start with a digit are the same in both.
+static bool uncertain_port(std::string_view v) {
+  if (v.empty()) return false;  // step 1 of canonicalize a port: returned unchanged
+  std::string t = strip_tab_nl(v);
+  return t.empty() || !(t.front() >= '0' && t.front() <= '9');
+}
+// (U3) canonicalize a search / a pathname run on "a new URL record" (scheme "": not special) in the revision refpattern
+//      transcribes, and on a special ("https://dummy.invalid/"-like) dummy URL in another.  They differ for U+0027 (') in
+//      a search (query vs special-query percent-encode set) and for U+005C (\) in a non-opaque pathname (segment
+//      separator of special URLs only).  The WPT vectors do not decide either.
+static bool uncertain_search(std::string_view v) { return v.find('\'') != std::string_view::npos; }
+static bool uncertain_special_pathname(std::string_view v) { return v.find('\\') != std::string_view::npos; }
+
+// What a full parse of "fake:" + value (no state override: hierarchical when the value starts with '/', authority when it
+// starts with "//", trailing C0 control / space trimmed) yields as pathname.  Used ONLY to label a disagreement on an
+// opaque pathname that this substitution explains exactly ("=fake-scheme-parse"), so that a known finding about it
+// cannot swallow a different defect on values of the same shape.
+struct Seen {  // what ada produced for the component being tagged
+  bool have = false, rejected = false, is_pattern = false;
+  std::string value;
+};
+static Seen seen_rejected() { Seen s; s.have = true; s.rejected = true; return s; }
+static Seen seen_value(const std::string& v, bool is_pattern) { Seen s; s.have = true; s.value = v; s.is_pattern = is_pattern; return s; }
+static std::string explain_opaque(std::string_view literal, const Seen& seen) {
+  if (!seen.have) return "";
+  auto u = refurl::parse("fake:" + std::string(literal));
+  if (seen.rejected) return u ? "" : "=fake-scheme-parse";
+  if (!u) return "";
+  std::string p = refurl::serialize_path(*u);
+  if (seen.is_pattern) p = rp::escape_pattern_string(p);
+  return p == seen.value ? "=fake-scheme-parse" : "";
+}
 // tag of a pathname value: the canonicalisation kind and, for the opaque kind, the shape of the value
-static std::string pathname_tag(const std::string& kind, std::string_view literal) {
+static std::string pathname_tag(const std::string& kind, std::string_view literal, const Seen& seen = Seen()) {
   if (kind == "special") return kind + "/" + feature(literal);
-  if (kind == "file") return "file-scheme";
-  std::string v = strip_tab_nl(literal);
-  if (v.size() >= 2 && v[0] == '/' && v[1] == '/') return kind + "/double-slash";
-  if (!v.empty() && v[0] == '/') return kind + "/leading-slash";
-  if (!v.empty() && (static_cast<unsigned char>(v.front()) <= 0x20 || static_cast<unsigned char>(v.back()) <= 0x20)) return kind + "/edge-c0-space";
-  return kind + "/" + feature(literal);
+  if (kind == "file") return "file-scheme" + explain_opaque(literal, seen);
+  std::string v = strip_tab_nl(literal), t;
+  if (v.size() >= 2 && v[0] == '/' && v[1] == '/') t = kind + "/double-slash";
+  else if (!v.empty() && v[0] == '/') t = kind + "/leading-slash";
+  else if (!v.empty() && (static_cast<unsigned char>(v.front()) <= 0x20 || static_cast<unsigned char>(v.back()) <= 0x20)) t = kind + "/edge-c0-space";
+  else t = kind + "/" + feature(literal);
+  return t + explain_opaque(literal, seen);
 }
 static std::string port_tag(const OStr& canonical_protocol, bool protocol_present, std::string_view port_literal) {
   // the protocol only matters for the default-port logic, i.e. for all-digit values
   if (feature(port_literal) != "digits") return feature(port_literal);
   std::string p = !protocol_present ? "none" : (canonical_protocol && rp::special_scheme(*canonical_protocol)) ? *canonical_protocol : "other";
-  return "protocol-" + p + "/" + feature(port_literal);
+  // "file" has a null default port: the literal "0" is the one value that a 0-for-null encoding confuses with it
+  return "protocol-" + p + "/" + (port_literal == "0" ? "zero" : feature(port_literal));
+}
+// protocol: ':' inside the value and tab/newline are the features that decide how value + "://dummy.test" parses
+static std::string protocol_tag(std::string_view literal) {
+  if (literal.find(':') != std::string_view::npos) return "colon";
+  return feature(literal);
+}
+// hostname: a non-ASCII value is named by its first non-ASCII code point (IDNA verdicts are per code point facts)
+static std::string hostname_tag(std::string_view literal) {
+  std::string f = feature(literal);
+  if (f != "non-ascii") return f;
+  for (size_t i = 0; i < literal.size();) {
+    uint32_t cp = 0;
+    size_t n = rp::decode_cp(literal, i, cp);
+    if (cp >= 0x80) { char b[32]; snprintf(b, sizeof b, "non-ascii:U+%04X", unsigned(cp)); return b; }
+    i += n;
+  }
+  return f;
 }
 // pattern construction: tag of component k from the reference's processed init
-static std::string tag_construct(const rp::Expect& E, int k) {
+static std::string tag_construct(const rp::Expect& E, int k, const Seen& seen = Seen()) {
   if (!E.have_processed) return "init";
   const std::string& raw = *E.processed.c[k];
   std::string lit = E.literal[k].value_or(raw);
   if (k == 5) {
     std::string kind = !E.pathname_special.has_value() ? "unknown" : *E.pathname_special ? (E.protocol_canon && *E.protocol_canon == "file" ? "file" : "special") : "opaque";
-    return pathname_tag(kind, lit);
+    return pathname_tag(kind, lit, seen);
   }
+  if (k == 0) return protocol_tag(lit);
+  if (k == 3) return hostname_tag(lit);
   if (k == 4) return port_tag(E.protocol_canon, E.protocol_canon.has_value(), lit);
   if (k == 6) return delim_tag(lit, '?', "leading-qmark");
   if (k == 7) return delim_tag(lit, '#', "leading-hash");
   return feature(lit);
 }
 // "url" processing: tag of component k of an input dictionary; dg = refpattern's diagnostics of processing d
-static std::string tag_url(const Dict& d, int k, const rp::Diag& dg) {
+static std::string tag_url(const Dict& d, int k, const rp::Diag& dg, const Seen& seen = Seen()) {
   OStr proto = dg.result_protocol;
   if (k == 5) {
     std::string kind = dg.pathname_special ? "special" : "opaque";
-    return pathname_tag(kind, dg.pathname_seen ? dg.pathname_input : d.c[5].value_or(""));
+    return pathname_tag(kind, dg.pathname_seen ? dg.pathname_input : d.c[5].value_or(""), seen);
   }
+  if (k == 0) {  // process protocol for init removes one trailing ':' before canonicalising
+    std::string_view v = d.c[0] ? std::string_view(*d.c[0]) : std::string_view();
+    if (!v.empty() && v.back() == ':') v.remove_suffix(1);
+    return protocol_tag(v);
+  }
+  if (k == 3) return hostname_tag(d.c[3].value_or(""));
   if (k == 4) return port_tag(proto, !dg.result_protocol.empty(), d.c[4].value_or(""));
   if (k == 6) return delim_tag(d.c[6].value_or(""), '?', "leading-qmark");
   if (k == 7) return delim_tag(d.c[7].value_or(""), '#', "leading-hash");
@@ -363,7 +446,7 @@ static void check_match(const Spec& ps, Pattern& off, Pattern& on, const Spec& i
       int k = -1;
       for (int i = 0; i < 8 && k < 0; i++)
         if (in.d.c[i]) { Spec one; one.d.c[i] = in.d.c[i]; if ((i == 4 || i == 5) && in.d.c[0]) one.d.c[0] = in.d.c[0]; if (!denote(one).ref_ok) k = i; }
-      tag += k >= 0 ? std::string(":") + CN[k] + ":" + tag_url(in.d, k, dn.dg) : std::string(in.d.base ? ":baseURL" : ":init");
+      tag += k >= 0 ? std::string(":") + CN[k] + ":" + tag_url(in.d, k, dn.dg, a.present ? seen_value(a.in[k], false) : Seen()) : std::string(in.d.base ? ":baseURL" : ":init");
     } else if (!in.base_arg) tag += ":relative-without-base";
     viol("C14/inputs/no-url:" + tag, ctx + "the input denotes no URL (" + (in.is_str ? "ada::parse and the URL Standard model reject it" : "process a URLPatternInit throws") + ") but test()=" +
          (a.test_val ? "true" : "false") + " and exec() " + (a.present ? "returns a result (pathname.input=\"" + show(a.in[5]) + "\")" : "returns null"), w, sz);
@@ -382,7 +465,7 @@ static void check_match(const Spec& ps, Pattern& off, Pattern& on, const Spec& i
     } else {
       for (int k = 0; k < 8; k++)
         if (a.in[k] != dn.ref[k])
-          viol(std::string("C14/inputs/") + CN[k] + ":dict:" + tag_url(in.d, k, dn.dg), ctx + CN[k] + ".input=\"" + show(a.in[k]) + "\" but the Standard's canonical value is \"" + show(dn.ref[k]) + "\"", w, sz);
+          viol(std::string("C14/inputs/") + CN[k] + ":dict:" + tag_url(in.d, k, dn.dg, seen_value(a.in[k], false)), ctx + CN[k] + ".input=\"" + show(a.in[k]) + "\" but the Standard's canonical value is \"" + show(dn.ref[k]) + "\"", w, sz);
     }
     uint64_t h = hash64(show_spec(ps), 11);
     for (int k = 0; k < 8; k++) { h = mix64(h ^ hash64(a.in[k], k)); h = mix64(h ^ hash64(show_groups(a.g[k]), 100 + k)); }
@@ -468,6 +551,8 @@ static const std::vector<std::vector<const char*>>& pattern_menu() {
   return m;
 }
 static const std::vector<int>& reduced_menu() { static const std::vector<int> r = {1, 2, 3, 5, 7, 14}; return r; }
+static const std::vector<int>& wide_menu() { static const std::vector<int> r = {1, 2, 3, 4, 5, 6, 7, 10, 11, 14}; return r; }
+static const std::vector<int>& small_menu() { static const std::vector<int> r = {2, 3, 7}; return r; }  // "*", literal, alternation regexp
 
 static const char* PBASE = "https://example.com/base/x?bq#bh";
 
@@ -536,7 +621,7 @@ static std::vector<Input> inputs14() {
       /*username*/ {"user", "USER", "a", "b", "1", "u r", "aaa", "", EACUTE, "us7", "u:s@r"},
       /*password*/ {"pass", "PASS", "a", "1", "u r", "", "aaa", "7-8"},
       /*hostname*/ {"example.com", "EXAMPLE.COM", "a.com", "b.com", "sub.example.com", "x.sub.example.com", "[::1]", "[0:0::1]", EACUTE ".com", "123", "a", "aaa", "", "bad host", "a.a.com", "com", "exa\tmple.com", "example.com:80", "a/b"},
-      /*port*/ {"8080", "80", "443", "81", "8", "88", "", "08080", "80x", "99999", "x", "8000", "\t", "8 0"},
+      /*port*/ {"8080", "80", "443", "81", "8", "88", "", "08080", "80x", "99999", "8000", "8\t0", "8 0"},  // no value that leaves the port state's buffer empty ("x", "\t"): (U2)
       /*pathname*/ {"/a/b", "/A/B", "/a", "/b", "/a/", "/a/b/c", "/a/a/a", "/x/y/z", "/123", "/a.b", "/a/../b", "/%61/b", "/" EACUTE, "a/b", "", "/", "aaa", "//a", "/a b", "/a/x.html", "/a?b", "/a#b", "../.."},
       /*search*/ {"q=1", "?q=1", "??q=1", "Q=1", "q=12", "q=x", "a", "b", "aaa", "", "?", "q=1#x", "q 1"},
       /*hash*/ {"frag", "#frag", "##a", "FRAG", "a", "b", "123", "aaa", "", "#", "frrr", "f g"},
@@ -583,7 +668,7 @@ static void run_c14(const Args& A, std::map<std::string, std::string>& extra) {
   uint64_t ord = 0, assignments = 0;
   auto run_assignment = [&](const Dict& d) {
     assignments++;
-    for (auto& ps : forms(d)) { if (int(ord++ % ns) != sh) continue; check_pattern14(ps, inputs); }
+    for (auto& ps : forms(d)) { if (int(ord++ % ns) != sh) continue; if (timed_out()) continue; check_pattern14(ps, inputs); }
   };
   // every single component alone, full menu (index 0 = everything absent, once)
   { Dict d; run_assignment(d); }
@@ -591,17 +676,19 @@ static void run_c14(const Args& A, std::map<std::string, std::string>& extra) {
     for (size_t i = 1; i < M[k].size(); i++) { Dict d; d.c[k] = M[k][i]; run_assignment(d); }
   // every unordered pair of components x every pair of menu values (both tiers: it is cheap enough)
   auto full = [&](int k) { std::vector<int> v; for (size_t i = 1; i < M[k].size(); i++) v.push_back(int(i)); return v; };
-  std::string pairs = A.get("pairs", "full"), triples = A.get("triples", T ? "full" : "reduced");
+  std::string pairs = A.get("pairs", "full"), triples = A.get("triples", T ? "wide" : "small");
   if (pairs != "none")
     for (int k1 = 0; k1 < 8; k1++)
       for (int k2 = k1 + 1; k2 < 8; k2++) {
         std::vector<int> i1 = pairs == "full" ? full(k1) : reduced_menu(), i2 = pairs == "full" ? full(k2) : reduced_menu();
         for (int a : i1) for (int b : i2) { Dict d; d.c[k1] = M[k1][a]; d.c[k2] = M[k2][b]; run_assignment(d); }
       }
-  // every unordered triple: 6-value reduced menu (quick) / full menu (thorough)
+  // every unordered triple: 3-value menu (quick) / 10-value menu (thorough); "reduced" = the 6-value menu, "full" = the
+  // whole menu (--triples full: 1.8e6 patterns x 245 inputs, run to completion once, same four classes as the others)
   if (triples != "none")
     for (int k1 = 0; k1 < 8; k1++) for (int k2 = k1 + 1; k2 < 8; k2++) for (int k3 = k2 + 1; k3 < 8; k3++) {
-      std::vector<int> i1 = triples == "full" ? full(k1) : reduced_menu(), i2 = triples == "full" ? full(k2) : reduced_menu(), i3 = triples == "full" ? full(k3) : reduced_menu();
+      auto pick = [&](int k) { return triples == "full" ? full(k) : triples == "small" ? small_menu() : triples == "wide" ? wide_menu() : reduced_menu(); };
+      std::vector<int> i1 = pick(k1), i2 = pick(k2), i3 = pick(k3);
       for (int a : i1) for (int b : i2) for (int c : i3) { Dict d; d.c[k1] = M[k1][a]; d.c[k2] = M[k2][b]; d.c[k3] = M[k3][c]; run_assignment(d); }
     }
   extra["pairs"] = jstr(pairs); extra["triples"] = jstr(triples);
@@ -662,6 +749,12 @@ static void c15_construct(const Spec& ps) {
   rp::Expect E = ref_construct(ps);
   // a relative pathname that dot-segment removal shrinks below "/-": the Standard's step is undefined, not judged
   if (rp::pathname_substring_undefined) { R.count("unspecified_relative_pathname"); return; }
+  // (U1..U3) whatever produced the literal (dictionary member, constructor string, base URL merge): excluded
+  if ((E.literal[0] && uncertain_protocol(*E.literal[0])) || (E.literal[4] && uncertain_port(*E.literal[4])) || (E.literal[6] && uncertain_search(*E.literal[6])) ||
+      (E.pathname_special.value_or(false) && E.literal[5] && uncertain_special_pathname(*E.literal[5]))) {
+    R.count("revision_sensitive_values_excluded");
+    return;
+  }
   auto got = build(ps, false);
   size_t sz = spec_size(ps);
   std::string fam = ps.is_str ? "C15/ctor/" : "C15/canon/";
@@ -684,7 +777,7 @@ static void c15_construct(const Spec& ps) {
         else {
           k = culprit_construct(E);
           if (k < 0 && E.outcome == rp::Expect::FAIL && !E.fail_component.empty()) for (int i = 0; i < 8; i++) if (E.fail_component == CN[i]) k = i;
-          if (k >= 0) { c = CN[k]; tag = tag_construct(E, k); }
+          if (k >= 0) { c = CN[k]; tag = tag_construct(E, k, got ? seen_value(pattern_strings(*got)[k], true) : seen_rejected()); }
           else if (E.fail_component == "baseURL") { c = "baseURL"; tag = "invalid"; }
         }
       } else if (ps.is_str) { c = "parser"; tag = feature(ps.str); }
@@ -705,7 +798,7 @@ static void c15_construct(const Spec& ps) {
   for (int k = 0; k < 8; k++) {
     h = mix64(h ^ hash64(s[k], k));
     if (E.pattern[k] && *E.pattern[k] != s[k])
-      viol(fam + CN[k] + ":pattern-string:" + tag_construct(E, k), ctx + CN[k] + " pattern string \"" + show(s[k]) + "\" but the Standard gives \"" + show(*E.pattern[k]) + "\"", w, sz);
+      viol(fam + CN[k] + ":pattern-string:" + tag_construct(E, k, seen_value(s[k], true)), ctx + CN[k] + " pattern string \"" + show(s[k]) + "\" but the Standard gives \"" + show(*E.pattern[k]) + "\"", w, sz);
   }
   if (R.distinct.size() < DISTINCT_CAP) R.outcome(h);
 }
@@ -734,6 +827,11 @@ static void c15_url(const Dict& d) {
   Denote dn = denote(in);
   rp::Diag dg = rp::diag;
   if (rp::pathname_substring_undefined) { R.count("unspecified_relative_pathname"); return; }
+  if ((d.c[0] && uncertain_protocol(*d.c[0])) || (d.c[4] && uncertain_port(*d.c[4])) || (d.c[6] && uncertain_search(*d.c[6])) ||
+      (dg.pathname_seen && dg.pathname_special && uncertain_special_pathname(dg.pathname_input))) {  // (U1..U3)
+    R.count("revision_sensitive_values_excluded");
+    return;
+  }
   g_judged++;
   MObs o = observe(*g_wild, in, false);
   size_t sz = spec_size(in);
@@ -743,7 +841,7 @@ static void c15_url(const Dict& d) {
   if (dn.ref_ok != o.present) {
     int k = culprit_url(d, dg);
     std::string c = k >= 0 ? CN[k] : (d.base && !refurl::parse(*d.base) ? "baseURL" : "init");
-    std::string tag = k >= 0 ? tag_url(d, k, dg) : (c == "baseURL" ? "invalid" : "init");
+    std::string tag = k >= 0 ? tag_url(d, k, dg, o.present ? seen_value(o.in[k], false) : seen_rejected()) : (c == "baseURL" ? "invalid" : "init");
     if (dn.ref_ok) {
       std::string exp;
       for (int i = 0; i < 8; i++) if (!dn.ref[i].empty()) exp += std::string(" ") + CN[i] + "=\"" + show(dn.ref[i]) + "\"";
@@ -756,7 +854,7 @@ static void c15_url(const Dict& d) {
   uint64_t h = 9;
   for (int k = 0; k < 8; k++) {
     h = mix64(h ^ hash64(o.in[k], k));
-    if (o.in[k] != dn.ref[k]) viol(std::string("C15/canon/") + CN[k] + ":url-value:" + tag_url(d, k, dg), ctx + CN[k] + ".input=\"" + show(o.in[k]) + "\" but the Standard gives \"" + show(dn.ref[k]) + "\"", w, sz);
+    if (o.in[k] != dn.ref[k]) viol(std::string("C15/canon/") + CN[k] + ":url-value:" + tag_url(d, k, dg, seen_value(o.in[k], false)), ctx + CN[k] + ".input=\"" + show(o.in[k]) + "\" but the Standard gives \"" + show(dn.ref[k]) + "\"", w, sz);
     // the all-wildcard pattern captures the whole component as group "0"
     Groups want{{"0", o.in[k]}};
     if (o.g[k] != want) viol(std::string("C15/canon/") + CN[k] + ":url-group", ctx + CN[k] + ".groups=" + show_groups(o.g[k]) + " for a wildcard component", w, sz);
@@ -773,6 +871,11 @@ static const std::vector<std::string>& bases15() {
 
 // all cases for one literal value of one component: with `ctx` fixed other members, alone and with every base
 static void c15_value(int comp, const std::string& v, const Dict& ctx, bool with_bases) {
+  // revision-sensitive values are not part of the alphabet (U1..U3 above); counted, never judged
+  if ((comp == 0 && uncertain_protocol(v)) || (comp == 4 && uncertain_port(v)) || (comp == 6 && uncertain_search(v))) {
+    R.count("revision_sensitive_values_excluded");
+    return;
+  }
   for (int bi = -1; bi < (with_bases ? int(bases15().size()) : 0); bi++) {
     Spec p; p.d = ctx;
     for (int k = 0; k < 8; k++) if (p.d.c[k]) p.d.c[k] = esc_literal(*p.d.c[k]);
@@ -998,12 +1101,18 @@ static void run_c15(const Args& A, std::map<std::string, std::string>& extra) {
   // (A1) E-tok per component
   for (int comp = 0; comp < 8; comp++) {
     auto ctxs = contexts(comp);
-    // hostname and pathname have the largest alphabets: one notch shallower with bases, full depth without
-    enum_tokens(alpha[comp], 0, k, 0, 1, [&](const std::string& v, uint64_t) {
-      if (int(ord++ % ns) != sh) return;
-      nvalues++;
-      for (auto& c : ctxs) c15_value(comp, v, c, true);
-    });
+    // quick: every length with every base; thorough: the longest length (k) without bases, shorter ones with bases
+    // (the base only contributes inherited components and the pathname merge, which k-1 tokens already span)
+    for (int pass = 0; pass < 2; pass++) {
+      int lo = pass == 0 ? 0 : k, hi = pass == 0 ? (T ? k - 1 : k) : k;
+      if (pass == 1 && !T) break;
+      enum_tokens(alpha[comp], lo, hi, 0, 1, [&](const std::string& v, uint64_t) {
+        if (int(ord++ % ns) != sh) return;
+        if (timed_out()) return;
+        nvalues++;
+        for (auto& c : ctxs) c15_value(comp, v, c, pass == 0);
+      });
+    }
   }
   // (A2) E-byte: every ASCII byte and representative UTF-8 sequences at first / middle / last position
   auto fill = byte_fillers(T);
@@ -1012,6 +1121,7 @@ static void run_c15(const Args& A, std::map<std::string, std::string>& extra) {
     for (auto& f : fill)
       for (int tpl = 0; tpl < 6; tpl++) {
         if (int(ord++ % ns) != sh) continue;
+        if (timed_out()) continue;
         std::string v = tpl == 0 ? f : tpl == 1 ? "a" + f : tpl == 2 ? f + "a" : tpl == 3 ? "a" + f + "b" : tpl == 4 ? "/" + f : f + f;
         nvalues++;
         for (auto& c : ctxs) c15_value(comp, v, c, tpl == 0 || tpl == 3);
@@ -1023,6 +1133,7 @@ static void run_c15(const Args& A, std::map<std::string, std::string>& extra) {
     Dict none;
     enum_tokens(ipt, 1, T ? 6 : 5, 0, 1, [&](const std::string& v, uint64_t) {
       if (int(ord++ % ns) != sh) return;
+      if (timed_out()) return;
       nvalues++;
       c15_value(3, v, none, false);
     });
@@ -1068,6 +1179,7 @@ static void run_c15(const Args& A, std::map<std::string, std::string>& extra) {
     int kc = int(A.geti("kctor", T ? 5 : 4));
     std::vector<OStr> cb = {std::nullopt, bases15()[0], bases15()[3]};
     uint64_t n = enum_tokens(tok, 0, kc, sh, ns, [&](const std::string& s, uint64_t) {
+      if (timed_out()) return;
       for (auto& b : cb) { Spec p; p.is_str = true; p.str = s; p.base_arg = b; c15_construct(p); }
     });
     R.count("constructor_strings", n);
@@ -1121,10 +1233,13 @@ int main(int argc, char** argv) {
   }
   std::map<std::string, std::string> extra;
   double t0 = now_s();
+  g_t0 = t0;
+  g_deadline = A.deadline_s;
   if (PROP == "C14") run_c14(A, extra);
   else if (PROP == "C15") run_c15(A, extra);
   else { fprintf(stderr, "--prop C14|C15 required\n"); return 2; }
   extra["wall_s"] = std::to_string(now_s() - t0);
+  if (g_skipped_after_deadline) R.count("cases_skipped_after_deadline", g_skipped_after_deadline);
   R.write(A.out, extra);
   return 0;
 }
